@@ -21,6 +21,7 @@ EXPLANATION = (
     "the one thread created and started in startService before the writer is registered."
     "  The queue is created per instance: neither a class attribute nor a parameter default evaluated at definition time."
     '  __call__ is decided on its flow graph (exactly one put(<message>) on every path); reader threads are created and started by startService only.'
+    "  startService may return early only for a writer that is already running (twisted's running flag, or an own attribute that stopService resets)."
 )
 RULE = ("obligation = rule instance bound to a loop exit / queue operation / call site of ThreadedWriter; "
         "non-trivial = CFG paths examined")
